@@ -112,6 +112,55 @@ theorem token_presented_once (kinds : Pid → Kind) (g0 : Nat) (ps : List Pid) :
     | cons p ps ih => intro s hi hp; exact ih _ (inv_step s p hi) (pinv_step s p hi hp)
   exact (this ps _ (inv_init kinds g0) ⟨by simp [init], by simp [init]⟩).nodup
 
+/-- bookkeeping for "ONE refresh": once a grant was made in a schedule the stored pair is on cooldown (`fresh`) for everyone who looks later -/
+structure OneInv (s : St) : Prop where
+  atIdp : ∀ p, (s.procs p).pc = .idp → s.presented = []
+  atReread : ∀ p v, (s.procs p).pc = .reread → s.sess = some v → v.fresh = false → s.presented = []
+  unlocked : ∀ v, s.sess = some v → v.fresh = false → s.lock = none → s.presented = []
+  atUnlock : ∀ p v, (s.procs p).pc = .unlock → s.sess = some v → v.fresh = false → s.presented = []
+  len : s.presented.length ≤ 1
+
+theorem one_init (kinds : Pid → Kind) (g0 : Nat) : OneInv (init kinds g0) := by
+  constructor <;> simp [init]
+
+theorem one_step (s : St) (p : Pid) (h : Inv s) (k : OneInv s) : OneInv (step s p).1 := by
+  obtain ⟨h1, h2, h3, h4, h5, h6, h7⟩ := h
+  obtain ⟨k1, k2, k3, k4, k5⟩ := k
+  unfold step
+  simp only []
+  split
+  · have := startNext_outside (s.procs p).kind
+    generalize startNext (s.procs p).kind = n at this
+    constructor <;> grind [setProc, inCrit]
+  · have := getNext_outside (s.procs p).kind s.sess
+    generalize getNext (s.procs p).kind s.sess = n at this
+    constructor <;> grind [setProc, inCrit]
+  · split <;> constructor <;> grind [setProc, inCrit]
+  · split
+    · constructor <;> grind [setProc, inCrit]
+    · split <;> constructor <;> grind [setProc, inCrit]
+  · -- idp: the only step that presents a token; nothing was presented before (k1), and mutual exclusion keeps everybody else out
+    rename_i hpc
+    have hp0 := k1 p hpc
+    have hlk := h1 p (by simp [hpc, inCrit])
+    split <;> constructor <;> grind [setProc, inCrit]
+  · split <;> constructor <;> grind [setProc, inCrit]
+  · constructor <;> grind [setProc, inCrit]
+  · constructor <;> grind [setProc, inCrit]
+  · exact ⟨k1, k2, k3, k4, k5⟩
+
+/-- **concurrent requests cause ONE refresh**: whatever the number of racing requests (manual refreshes, proxied requests with a refresh due, readers,
+    logouts) and whatever the schedule, the provider sees at most one refresh-token grant request for the session while the cooldown of the first
+    one runs (a schedule is shorter than the cooldown) -/
+theorem one_refresh (kinds : Pid → Kind) (g0 : Nat) (ps : List Pid) :
+    (ps.foldl (fun s p => (step s p).1) (init kinds g0)).presented.length ≤ 1 := by
+  have : ∀ (l : List Pid) (s : St), Inv s → OneInv s → OneInv (l.foldl (fun s p => (step s p).1) s) := by
+    intro l
+    induction l with
+    | nil => intro s _ hk; exact hk
+    | cons p ps ih => intro s hi hk; exact ih _ (inv_step s p hi) (one_step s p hi hk)
+  exact (this ps _ (inv_init kinds g0) (one_init kinds g0)).len
+
 /-- every presentation is accepted by the provider (the token presented is the current one): no request is logged out by a lost race -/
 theorem every_grant_succeeds (s : St) (p : Pid) (h : Inv s) (hpc : (s.procs p).pc = .idp) : ((step s p).1.procs p).pc = .update := by
   have hrt := h.atIdp p hpc
